@@ -446,7 +446,7 @@ def arith(op, a, b, on_check, on_assume=None):
     if op == "*":
         return vfloat(x * y, nan)
     if op == "/":
-        on_check("ZeroDivisionError", y != 0)
+        on_check("ZeroDivisionError", or_(nb, y != 0))       # dividing by NaN gives NaN, not an exception
         if z3.is_rational_value(y) or z3.is_int_value(y) or on_assume is None:
             return vfloat(x / y, nan)
         # symbolic divisor: name the quotient so that linear reasoning about it stays linear
